@@ -98,21 +98,71 @@ def global_sign_facts(sim):
     return out
 
 
-def check_site(site, sim, gfacts, exact=True):
+def local_allocations(sim):
+    """{pointer var: [count Poly, ...]} for `p = (T*) calloc(count, sizeof(T))` /
+    `malloc(count * sizeof(T))` assignments in the function"""
+    out = {}
+    for n in cf.walk(sim.body):
+        if n.get("k") == "CallExpr" and cf.callee_name(n) in ("calloc", "malloc") and not n.get("bm"):
+            span = sim.c.paren_after(n["b"])
+            if not span:
+                continue
+            args = cf.split_top(sim.c.text(span[0] + 1, span[1]))
+            try:
+                if cf.callee_name(n) == "calloc" and len(args) == 2:
+                    cnt = cx.to_poly(cx.parse(args[0]))
+                else:
+                    e = cx.parse(args[0])
+                    cnt = None
+                    if e[0] == "bin" and e[1] == "*":
+                        for a, b in ((e[2], e[3]), (e[3], e[2])):
+                            if b[0] == "call" and b[1] == "sizeof":
+                                cnt = cx.to_poly(a)
+            except cx.ParseError:
+                cnt = None
+            # find the variable the result is assigned to: scan back in the text
+            pre = sim.c.text(max(0, n["b"] - 80), n["b"])
+            import re
+            m = re.search(r"(\w+)\s*=\s*(?:\([^()]*\)\s*)*$", pre)
+            if m and cnt is not None:
+                out.setdefault(m.group(1), []).append(cnt)
+    return out
+
+
+def check_site(site, sim, gfacts, kbmod=kb, allocs=None):
     """-> list of (status, what, detail, expected, observed) for one call site.
     status: ok / violation / undecided"""
     res = []
-    base = kb.lookup(site.callee)
+    site_args = [simplify(a, site.case) if a is not None else None for a in site.args]
+    base = kbmod.lookup(site.callee)
     if base is None:
-        return [("undecided", "routine %s" % site.callee, "no reference entry", None, None)]
-    params = kb.ROUTINES[base]
+        # no reference entry: weaker variable-set rule - every matrix buffer handed over
+        # must at least be covered by some rejecting guard on its length
+        out = []
+        for i, a in enumerate(site_args):
+            if a is None:
+                continue
+            arr = array_actual(a)
+            if arr is None and a[0] == "tern":
+                arr = array_actual(a[2]) or array_actual(a[3])
+            if arr is None:
+                continue
+            X = arr[0]
+            what = "%s(arg%d=%s)" % (site.callee, i + 1, cx.unparse(a))
+            if any(f.D is not None and "len(%s)" % X in f.D.symbols() for f in site.facts):
+                out.append(("ok", what, "a rejecting guard on len(%s) dominates the call (no reference footprint for this routine)" % X, None, None))
+            else:
+                out.append(("violation", what, "buffer of `%s` is handed to %s without any dominating guard on its length" % (X, site.callee),
+                            "if (... > len(%s)) error" % X, "none"))
+        return out or [("undecided", "routine %s" % site.callee, "no reference entry and no matrix buffer argument", None, None)]
+    params = kbmod.ROUTINES[base]
     if len(params) != len(site.args):
         return [("undecided", "routine %s" % site.callee,
                  "argument count %d differs from the reference %d" % (len(site.args), len(params)), None, None)]
     case = site.case
     vals, flags, zero = {}, {}, set()
     arrays = {}
-    for (pname, role), a in zip(params, site.args):
+    for (pname, role), a in zip(params, site_args):
         if a is None:
             return [("undecided", "%s:%s" % (site.callee, pname), "argument text not parsed", None, None)]
         if role in ("dim", "ld", "inc"):
@@ -150,6 +200,11 @@ def check_site(site, sim, gfacts, exact=True):
                 pass
     fpolys += simp
 
+    eqsub = {}
+    for f in site.facts:
+        if getattr(f, "assign_var", None) and f.D is not None:
+            eqsub[f.assign_var] = f.assign_poly
+
     def absnorm(p):
         """abs(v) -> v when v > 0 is established"""
         m = {}
@@ -164,6 +219,25 @@ def check_site(site, sim, gfacts, exact=True):
         arr = array_actual(a)
         what = "%s(%s=%s)" % (site.callee, pname, cx.unparse(a))
         if arr is None:
+            la = cx.strip_casts(a)
+            if la[0] == "id" and allocs is not None and la[1] in allocs:
+                fp, why, rows = kb.footprint(role, vals, flags, zero)
+                if fp in (None, "?"):
+                    res.append(("ok" if fp is None else "undecided", what, why or "not referenced", None, None))
+                    continue
+                good = False
+                for cnt in allocs[la[1]]:
+                    d = cnt.subs(eqsub) - fp.subs(eqsub) if eqsub else cnt - fp
+                    if not d.t or (d.is_const() and d.const_value() >= 0):
+                        good = True
+                if good:
+                    res.append(("ok", what, "local allocation of %s elements covers the footprint %r" % (allocs[la[1]], fp), None, None))
+                else:
+                    res.append(("violation", what, "local array `%s` is allocated with %s elements but the routine touches %r"
+                                % (la[1], allocs[la[1]], fp), "allocation >= %r" % fp, [repr(x) for x in allocs[la[1]]]))
+                continue
+            if la[0] == "id" and la[1] == "NULL":
+                continue
             res.append(("undecided", what, "array actual is not of the form BUF(X) + offset", None, None))
             continue
         X, off, macro = arr
@@ -175,7 +249,8 @@ def check_site(site, sim, gfacts, exact=True):
             res.append(("ok", what, "not referenced in this case (%s)" % why, None, None))
             continue
         # a complex matrix addressed through its double view: lengths count doubles
-        u = 2 if (macro == "MAT_BUFD" and case.mid == "COMPLEX") else 1
+        known_double = any(f.text.replace(" ", "") in ("(MAT_ID(%s)==DOUBLE)" % X, "(%s->id==DOUBLE)" % X) for f in site.facts)
+        u = 2 if (macro == "MAT_BUFD" and case.mid == "COMPLEX" and not known_double) else 1
         need = absnorm(Poly.const(u) * Poly.sym("len(%s)" % X) - off - fp)       # must be >= 0
         hit = None
         weaker = None
@@ -199,7 +274,32 @@ def check_site(site, sim, gfacts, exact=True):
             else:
                 weaker = weaker or ("different", text)
         exp = "guard  %s + (%r) <= len(%s)" % (repr(off), fp, X)
-        if hit:
+        if not hit:
+            nb = _base_vars([need])
+            relf = []
+            for D, st_, _t in fpolys:
+                Dn = absnorm(D)
+                bv = _base_vars([Dn])
+                if bv & nb and not any(v.startswith("len(") and v != "len(%s)" % X for v in bv):
+                    relf.append((Dn, st_))
+            verdict, wit = grid_decide(need, relf, case, gfacts, "len(%s)" % X)
+            if verdict == "equivalent":
+                hit = ("equivalent on the grid", weaker[1] if weaker else "")
+            elif verdict == "over":
+                res.append(("violation-over", what,
+                            "the guards reject a call the reference footprint allows, e.g. %s (nearest guard `%s`)" % (wit, weaker[1] if weaker else ""),
+                            exp, weaker[1] if weaker else None))
+                weaker = None
+                hit = "done"
+            elif verdict == "under":
+                res.append(("violation", what,
+                            "guards pass but the reference footprint of %s exceeds the buffer, e.g. %s; case [%r]; nearest guard `%s`"
+                            % (pname, wit, case, weaker[1] if weaker else "none"), exp, weaker[1] if weaker else "none"))
+                weaker = None
+                hit = "done"
+        if hit == "done":
+            pass
+        elif hit:
             res.append(("ok", what, "guard `%s` equals offset + reference footprint %r" % (hit[1], fp), None, None))
         elif weaker and weaker[0].startswith("stronger"):
             res.append(("violation-over", what,
@@ -232,6 +332,8 @@ def check_site(site, sim, gfacts, exact=True):
                         okld = True
                     elif rows_ge1 and not (D - (Poly.sym(ldv) - rows)).t:
                         okld = True          # rows >= 1 always: MAX(1, rows) == rows
+                    elif _equal_on_grid(D, want):
+                        okld = True
             if okld:
                 res.append(("ok", what + ":ld", "%s >= MAX(1, %s)" % (ldv, _txt(rows)), None, None))
             elif fp is not None:
@@ -245,3 +347,177 @@ def _txt(p):
     if len(syms) == 1 and p == Poly.sym(syms[0]):
         return syms[0]
     return repr(p)
+
+
+# --------------------------------------------------------------------------------------
+# bounded concrete decision when polynomial forms differ
+# --------------------------------------------------------------------------------------
+import itertools as _it
+
+
+def _eval_sym(name, env):
+    """value of an opaque symbol (MAX(..), MIN(..), abs(..), A->nrows ...) under env"""
+    if name in env:
+        return env[name]
+    try:
+        e = cx.parse(name)
+    except cx.ParseError:
+        return None
+    return _eval(e, env)
+
+
+def _eval(e, env):
+    k = e[0]
+    if k == "num":
+        return e[1]
+    if k == "id":
+        return env.get(e[1])
+    if k == "cast":
+        return _eval(e[2], env)
+    if k == "un" and e[1] == "-":
+        v = _eval(e[2], env)
+        return None if v is None else -v
+    if k == "bin" and e[1] in ("+", "-", "*"):
+        a, b = _eval(e[2], env), _eval(e[3], env)
+        if a is None or b is None:
+            return None
+        return a + b if e[1] == "+" else a - b if e[1] == "-" else a * b
+    if k == "call" and e[1] in ("MAX", "MIN") and len(e[2]) == 2:
+        a, b = _eval(e[2][0], env), _eval(e[2][1], env)
+        if a is None or b is None:
+            return None
+        return max(a, b) if e[1] == "MAX" else min(a, b)
+    if k == "call" and e[1] == "abs" and len(e[2]) == 1:
+        a = _eval(e[2][0], env)
+        return None if a is None else abs(a)
+    txt = cx.unparse(e)
+    return env.get(txt)
+
+
+def _base_vars(polys):
+    out = set()
+    for p in polys:
+        for s in p.symbols():
+            try:
+                e = cx.parse(s)
+            except cx.ParseError:
+                out.add(s)
+                continue
+            if e[0] == "id":
+                out.add(s)
+            elif e[0] == "call" and e[1] in ("MAX", "MIN", "abs"):
+                out |= {v for v in cx.idents(e)}
+                for a in e[2]:
+                    if a[0] not in ("id", "num", "bin", "un", "call", "cast"):
+                        out.add(cx.unparse(a))
+                    elif a[0] == "mem":
+                        out.add(cx.unparse(a))
+            else:
+                out.add(s)
+    return out
+
+
+def _pval(p, env):
+    tot = 0
+    for mono, c in p.t.items():
+        v = c
+        for s, pw in mono:
+            x = _eval_sym(s, env)
+            if x is None:
+                return None
+            v = v * (x ** pw)
+        tot += v
+    return tot
+
+
+def _equal_on_grid(p, q):
+    vars_ = sorted(_base_vars([p, q]))
+    if len(vars_) > 6:
+        return False
+    for combo in _it.product((0, 1, 2, 3), repeat=len(vars_)):
+        env = dict(zip(vars_, combo))
+        a, b = _pval(p, env), _pval(q, env)
+        if a is None or b is None or a != b:
+            return False
+    return True
+
+
+_GRID_MEMO = {}
+
+
+def grid_decide(need, facts, case, gfacts, lensym, budget=60000):
+    key = (repr(need), tuple(sorted((repr(D), s) for D, s in facts)), tuple(sorted(case.signs.items())),
+           tuple(sorted((k, tuple(sorted(v))) for k, v in gfacts.items())), lensym)
+    if key not in _GRID_MEMO:
+        _GRID_MEMO[key] = _grid_decide(need, facts, case, gfacts, lensym, budget)
+    return _GRID_MEMO[key]
+
+
+def _grid_decide(need, facts, case, gfacts, lensym, budget=60000):
+    """Compare `need >= 0` (reference requirement) with the conjunction of the guard facts
+    on a grid of small concrete values.  -> ('equivalent'|'over'|'under'|'unknown', witness)"""
+    polys = [need] + [D for D, _ in facts]
+    vars_ = sorted(_base_vars(polys))
+    if len(vars_) > 9:
+        return ("unknown", None)
+    doms = []
+    for v in vars_:
+        if v.startswith("len("):
+            doms.append(range(0, 14))
+        elif v in case.signs:
+            doms.append((0,) if case.signs[v] == 0 else (1, 2, 3))
+        elif ">=0" in gfacts.get(v, ()) :
+            doms.append((0, 1, 2))
+        elif ">0" in gfacts.get(v, ()):
+            doms.append((1, 2, 3))
+        elif "!=0" in gfacts.get(v, ()):
+            doms.append((-2, -1, 1, 2))
+        elif "->" in v or v.startswith("ld"):
+            doms.append((1, 2, 3, 4))
+        else:
+            doms.append((0, 1, 2, 3))
+    total = 1
+    for d in doms:
+        total *= len(d)
+    if total > budget:
+        return ("unknown", None)
+    over = under = None
+    for combo in _it.product(*doms):
+        env = dict(zip(vars_, combo))
+        nv = _pval(need, env)
+        if nv is None:
+            return ("unknown", None)
+        ok_guards = True
+        for D, strict in facts:
+            dv = _pval(D, env)
+            if dv is None:
+                continue
+            if dv < 0 or (strict and dv == 0):
+                ok_guards = False
+                break
+        if ok_guards and nv < 0 and under is None:
+            under = dict(env)
+        if (not ok_guards) and nv >= 0 and over is None:
+            # only the length guards matter for over-rejection: re-test with the non-length facts
+            oth = True
+            for D, strict in facts:
+                if lensym in D.symbols():
+                    continue
+                dv = _pval(D, env)
+                if dv is not None and (dv < 0 or (strict and dv == 0)):
+                    oth = False
+            lenfail = False
+            for D, strict in facts:
+                if lensym in D.symbols():
+                    dv = _pval(D, env)
+                    if dv is not None and (dv < 0 or (strict and dv == 0)):
+                        lenfail = True
+            if oth and lenfail:
+                over = dict(env)
+        if under:
+            break
+    if under:
+        return ("under", under)
+    if over:
+        return ("over", over)
+    return ("equivalent", None)
